@@ -126,6 +126,10 @@ SWAP_HEAVY = dict(
     p_mutate_step=0.2, n_paths=(3, 6), p_catch=0.85, w_raise=9,
     p_write_never=0.08, p_q_near_output=0.85, w_probe=5, w_q=36,
     p_clean_step=0.08, n_init=(0, 3))
+SWAP_DENSE = dict(
+    SWAP_HEAVY, p_swap_dense=1.0, p_switch_root=0.9, n_steps=(3, 6),
+    p_mutate_step=0.1, p_clean_step=0.05, w_raise=5, max_nest=1,
+    p_write_never=0.04)
 OVERLAP = dict(
     p_anc_target=0.35, w_bf=36, w_sb=10, w_q=26, w_raise=10, p_catch=0.9,
     p_write_never=0.15, p_write_unlink=0.05, n_paths=(3, 5), n_init=(1, 5),
@@ -435,6 +439,35 @@ CAMPAIGNS['C08'].append(
          'subbuild key under seeded schedules: exactly one execution, the '
          'others get RuntimeError, the winner is intact',
          nontrivial=nt_threads, post='tag_all:C08'))
+CAMPAIGNS['C16'].append(camp(
+    'c16-edited-values', 'C16', dict(PERSIST_HEAVY, w_mut=14, p_ret_val=0.85,
+                                     p_mutate_step=0.05),
+    'user code edits the values it got back (returned lists / dicts, '
+    'arguments) while rich values are persisted over 3-6 builds: what a '
+    'later build serves must equal what the function originally returned',
+    post='tag_all:C16', weight=0.8))
+RACE_RULE = ('a key (build_file path / subbuild name+arguments) performed '
+             'directly by one thread while another thread reuses or '
+             're-executes a cached subtree (depth 1-2) that contains it; '
+             'model-free oracle: every key is performed at most once per '
+             'build (executed, served, or implied by a served subtree), '
+             'losers get RuntimeError, the sequential builds in between '
+             'equal from-scratch runs, clean removes everything')
+CAMPAIGNS['C08'].append(
+    camp('c08-race', 'race', {}, RACE_RULE + '; seeded random / PCT / '
+         'single-preemption schedules', nontrivial=nt_threads,
+         post='tag_all:C08', weight=0.8))
+CAMPAIGNS['C08'].append(
+    camp('c08-race-sweep', 'race', {}, RACE_RULE + '; complete '
+         'single-preemption sweep of the first racing build',
+         mode='sched-sweep', nontrivial=nt_threads, chunk=3,
+         post='tag_all:C08', sweep_max={'quick': 16, 'thorough': None},
+         weight=0.8))
+CAMPAIGNS['C08'].append(
+    camp('c08-race-line', 'race', {'p_line': 1.0}, RACE_RULE + '; line-level '
+         'preemption: every source line executed inside the package is a '
+         'yield point', nontrivial=nt_threads, chunk=4, post='tag_all:C08',
+         weight=0.5))
 CAMPAIGNS['C17'] = [
     camp('c17-stragglers', 'stragglers', {},
          'a detached simulated thread keeps calling builder methods (9 query '
@@ -484,6 +517,25 @@ for _p, _post in (('C01', None), ('C03', None), ('C04', None),
                               SWAP_RULE, **_extra))
     CAMPAIGNS[_p].append(camp(_p.lower() + '-nested-fail', _p, NESTED_FAIL,
                               NESTED_RULE, **_extra))
+DENSE_RULE = ('two root programs that each build all outputs of their group, '
+              'the groups sitting one or two levels above / below each other, '
+              'run alternately (nested stale directories make room for files, '
+              'directories replace stale files, in every build)')
+for _p, _post in (('C01', None), ('C03', None), ('C10', 'tag_all:C10'),
+                  ('C12', 'tag_after_clean')):
+    _extra = {'post': _post} if _post else {}
+    CAMPAIGNS[_p].append(camp(_p.lower() + '-swaps-dense', _p, SWAP_DENSE,
+                              DENSE_RULE, weight=0.6, **_extra))
+CAMPAIGNS['C02'].append(camp(
+    'c02-swaps-dense-crash', 'C02', SWAP_DENSE, DENSE_RULE,
+    mode='crash-sweep', nontrivial=nt_rollback_restored, chunk=6,
+    sweep_max={'quick': 12, 'thorough': None}, follow=1, weight=0.6))
+CAMPAIGNS['C14'].append(camp(
+    'c14-swaps-dense-sweep', 'C14', dict(SWAP_DENSE, p_catch=0.9),
+    DENSE_RULE + ': OSError at every pre-commit mutating call index, also '
+    'followed by a root failure',
+    mode='oserror-sweep', nontrivial=nt_rollback_restored, chunk=6, follow=1,
+    crash_end=True, sweep_max={'quick': 12, 'thorough': None}, weight=0.6))
 OVERLAP_RULE = ('targets above / below other targets of the same build '
                 '(one of the two calls failing), over foreign files')
 CAMPAIGNS['C07'].append(camp(
@@ -653,7 +705,7 @@ def apply_post(sc, post):
     if post.startswith('tag_all:'):
         tag = post.split(':')[1]
         for st in sc['steps']:
-            if st['op'] in ('build', 'clean'):
+            if st['op'] in ('build', 'clean', 'freebuild', 'freeclean'):
                 st['tags'] = [tag]
     elif post == 'tag_versions':
         prev = None
@@ -680,7 +732,7 @@ def apply_post(sc, post):
 def run_case(camp, seed, tier='quick', prop=None):
     params = camp.get('params')
     if tier == 'thorough' and seed % 2 and isinstance(params, dict) and \
-            camp['profile'] not in ('threads', 'stragglers', 'wide'):
+            camp['profile'] not in ('threads', 'stragglers', 'wide', 'race'):
         # deeper bounds for every second case of the thorough tier
         lo, hi = params.get('n_steps', gen.DEFAULT['n_steps'])
         plo, phi = params.get('n_paths', gen.DEFAULT['n_paths'])
